@@ -281,6 +281,20 @@ class Prop:
         return []
 
 
+def code_of(text):
+    """the code of a generated file: every line that is neither blank nor a `//` comment line, without its
+    indentation (what a C++ compiler is given, up to token spacing)"""
+    return [l.strip() for l in text.splitlines() if l.strip() and not l.strip().startswith('//')]
+
+
+def code_projection(out):
+    """DESIGN 2.3: a property that does not speak about comments compares the CODE of the generated files, so a
+    reworded comment or a re-indented block in the generator is not a deviation for it"""
+    if isinstance(out, dict) and isinstance(out.get('ok'), dict) and 'files' in out['ok']:
+        return {'ok': [[f['name'], code_of(f['contents'])] for f in out['ok']['files']]}
+    return out
+
+
 def evaluate(prop, cases):
     """impl + model + monitor for a list of cases. Returns list of records."""
     import contextlib
@@ -560,8 +574,11 @@ def run_check(prop, argv=None):
     ev = {'property_id': prop.id, 'tier': tier, 'seed': seed, 'level': 'proof', 'coverage': cov,
           'assumptions': prop.assumptions, 'wall_s': round(time.time() - t0, 2),
           'violations': len(violations)}
-    os.makedirs(os.path.join(VERIF, 'evidence'), exist_ok=True)
-    json.dump(ev, open(os.path.join(VERIF, 'evidence', f'{prop.id}.json'), 'w'), indent=1,
+    # evidence/ only ever holds what a run against /repo itself covered; a run against a scratch worktree
+    # (VERIF_REPO, used to try seeded changes and harmless refactorings) writes elsewhere
+    evdir = os.path.join(VERIF, 'evidence') if REPO == '/repo' else os.path.join(VERIF, 'replays', 'evidence_scratch')
+    os.makedirs(evdir, exist_ok=True)
+    json.dump(ev, open(os.path.join(evdir, f'{prop.id}.json'), 'w'), indent=1,
               ensure_ascii=False)
     print(f'{prop.id} tier={tier} seed={seed} evaluations={evaluations} distinct={len(shapes)} '
           f'theorems={discharged}/{obligations} disagreements={len(disagreements)} '
